@@ -132,8 +132,10 @@ func Harness_C14_ToPos() {
 		ndAssert("C14.real_file_position_keeps_the_column", back.Column == col)
 	}
 	// a second diagnostic in the same file must not disturb the first
-	pos2 := e.toPos(token.Position{Filename: "a.go", Line: 1 + ndChoice("second_line", 8), Column: 1, Offset: 0})
+	line2 := 1 + ndChoice("second_line", 8)
+	pos2 := e.toPos(token.Position{Filename: "a.go", Line: line2, Column: 1, Offset: 10 * (line2 - 1)})
 	ndAssert("C14.second_position_is_valid", pos2 > 0)
+	ndAssert("C14.second_position_maps_back_to_its_own_line", fset.Position(pos2).Line == line2 && fset.Position(pos2).Filename == "a.go")
 	ndAssert("C14.first_position_still_resolves", fset.Position(pos).Line == line)
 }
 
